@@ -89,7 +89,15 @@ def main():
             },
             'caught_by_quick_tier_of': sorted(p for p, r in checks.items() if r['detected']),
         }
-        json.dump(meta, open(os.path.join(dst, 'meta.json'), 'w'), indent=1)
+        mp = os.path.join(dst, 'meta.json')
+        if os.path.exists(mp):
+            try:
+                old = json.load(open(mp))
+                if old.get('confirmed_via_repo_flow'):
+                    meta['confirmed_via_repo_flow'] = old['confirmed_via_repo_flow']
+            except Exception:
+                pass
+        json.dump(meta, open(mp, 'w'), indent=1)
         kept += 1
         print('kept %s: caught by %s' % (meta['id'], meta['caught_by_quick_tier_of']))
     print('kept', kept)
